@@ -15,6 +15,8 @@ its origin index (even); the coarse axis is `coarsen fine`, its origin `of / 2`.
   c1d <fine> <of> <midtbl> <values>     -> `<pRight of the odd positions> <fine rates> <coupled rate of every coarse state>
                                             <coarse rates> <sentRight odd> <sentLeft odd>`
   couple1d <fine> <of> <midtbl> <values> <inc> <u>   -> the value `coupling_state(inc)` returns for the coupling uniform u
+  couple1dm … <incs> <us>               -> the same for a list of (increment, uniform) pairs
+  couplendm <axes> <o> <values> <incs> <us> -> rows of coupled values for a list of (increment, uniform) pairs (empty row = raise)
   slice1d <fine> <of> <midtbl> <values> <incs> <us>  -> `coupling_states_for_a_slice` (running sums)
   levels <axis> <o> <h> <midtbl> <L> <diffs> <drifts> <x0s> <t>
                                         -> state after L `next_level` calls, the chain parameters of level l being the l-th
@@ -102,6 +104,14 @@ def step (t : List String) : String :=
       | none => "bad-op"
       | some m => showRat (couple1d mid ax o m inc u)
     | _, _, _, _, _, _ => "bad-op"
+  | ["couple1dm", ax, o, tbl, vals, incs, us] =>
+    match parseRatList? ax, parseNat? o, parseTriples tbl, parseRatList? vals, parseInts? incs, parseRatList? us with
+    | some ax, some o, some tbl, some vals, some incs, some us =>
+      let mid := midOf tbl
+      match table1d mid ax o vals with
+      | none => "bad-op"
+      | some m => showRatList ((incs.zip us).map (fun p => couple1d mid ax o m p.1 p.2))
+    | _, _, _, _, _, _ => "bad-op"
   | ["slice1d", ax, o, tbl, vals, incs, us] =>
     match parseRatList? ax, parseNat? o, parseTriples tbl, parseRatList? vals, parseInts? incs, parseRatList? us with
     | some ax, some o, some tbl, some vals, some incs, some us =>
@@ -159,6 +169,13 @@ def step (t : List String) : String :=
       match tableNd axes o vals with
       | none => "bad-op"
       | some m => showOpt showRatList (coupleNd axes o m inc u) |>.replace "none" "raise"
+    | _, _, _, _, _ => "bad-op"
+  | ["couplendm", axes, o, vals, incs, us] =>
+    match parseListListWith? parseRat? axes, parseNat? o, parseRatList? vals, parseListListWith? parseInt? incs, parseRatList? us with
+    | some axes, some o, some vals, some incs, some us =>
+      match tableNd axes o vals with
+      | none => "bad-op"
+      | some m => showListList showRat ((incs.zip us).map (fun p => (coupleNd axes o m p.1 p.2).getD []))
     | _, _, _, _, _ => "bad-op"
   | ["cex"] =>
     showRatList cexFine ++ " " ++ showRat (coupledRate2 [cexFine, cexFine] 2 lineMargin [2, 4]) ++ " " ++
